@@ -126,6 +126,6 @@ pub fn run(cfg: &Cfg, rep: &mut Report) {
     rep.add("class_expressions", fixed.len() as u64);
     let spec = StreamSpec { n_struct: 0, enum_nodes: 0, enum_flags: vec![], tweak: no_tweak, fixed, templates: false };
     let opts = DriveOpts { budget: 0, n_long: 0, n_plant: 0, ascii_only: false, sample_every: 997 };
-    let c = C01 { limits: RefLimits { max_steps: 100_000, max_depth: 5_000 }, property: "C12", name: "c12", universe: Some(universe()), only_start_zero: true };
+    let c = C01 { limits: RefLimits { max_steps: 100_000, max_depth: 5_000 }, property: "C12", name: "c12", universe: Some(universe()), only_start_zero: true, nontrivial_iff_matched: true };
     drive(&c, cfg, rep, &spec, &opts);
 }
